@@ -120,7 +120,7 @@ fn main() {
                         }
                         c.escapes = i % 10 == 9;
                         let prog = if i % 3 == 2 { gen::gen_wild_cfg(s, &c).0 } else { gen::gen_wf(s, &c) };
-                        let (flags, canon) = watched(&prog, || codec::check(&prog));
+                        let (flags, canon, stacks) = watched(&prog, || codec::check(&prog));
                         writeln!(out, "G 1 {} seed={s}", profile).unwrap();
                         writeln!(out, "P {}", ir::w_prog(&prog)).unwrap();
                         writeln!(out, "X {}", flags).unwrap();
@@ -128,6 +128,9 @@ fn main() {
                         if profile == "codecnf" && !wire.contains("(f32 ") && !wire.contains("(f64 ") && !wire.contains("(ext ") {
                             if let Some(j) = canon {
                                 writeln!(out, "J {}", j).unwrap();
+                            }
+                            if let Some(k) = stacks {
+                                writeln!(out, "K {}", k).unwrap();
                             }
                         }
                         writeln!(out, "D {}", watched(&prog, || dump::analyze(&prog))).unwrap();
